@@ -55,7 +55,7 @@ static int cb(struct dl_phdr_info *info, size_t, void *)
 
 void image_snapshot()
 {
-#ifdef RKSIM_ASAN_LANE
+#ifdef RKSIM_NO_ARENA
   return;
 #endif
   nregions = 0;
@@ -73,7 +73,7 @@ void image_snapshot()
 
 void image_restore()
 {
-#ifdef RKSIM_ASAN_LANE
+#ifdef RKSIM_NO_ARENA
   return;  // the single-task lanes keep no state in the library image; copying over ASan's global red zones is not allowed
 #endif
   for (int i = 0; i < nregions; i++)
